@@ -21,7 +21,7 @@ func checkC19(c *Check) {
 	c.nlriWrappers("C19.2 wrappers")
 	c.mpSplitters("C19.3 mp-splitters")
 	c.checkBounds("C19.4", []string{"decodePrefix", "decodePrefixes", "decodeAddPathPrefixes", "NewNLRIDecodeFn", "NewNLRIAddPathDecodeFn", "NewWithdrawnRoutesDecodeFn",
-		"NewWithdrawnAddPathRoutesDecodeFn", "NewMPReachNLRIDecodeFn", "NewMPUnreachNLRIDecodeFn", "DecodeMPReachIPv6NextHops", "DecodeMPIPv6Prefixes", "DecodeMPIPv6AddPathPrefixes"}, 20)
+		"NewWithdrawnAddPathRoutesDecodeFn", "NewMPReachNLRIDecodeFn", "NewMPUnreachNLRIDecodeFn", "DecodeMPReachIPv6NextHops", "DecodeMPIPv6Prefixes", "DecodeMPIPv6AddPathPrefixes", "PathAttrFlags.Validate", "notifDataForAttrBasedErr"}, 20)
 	_ = p
 }
 
